@@ -65,15 +65,22 @@ class C23(Check):
         assert line_col("ab\ncd", 3) == (2, 1) and line_col("ab\ncd", 2) == (1, 3)
 
     def pinned(self, tier):
-        yield from lintlib.pinned_lint_cases(tier, per_dialect=3, mutants_per_dialect=3, templates=100, salt=23, fix_mode=False)
+        for i, c in enumerate(lintlib.pinned_lint_cases(tier, per_dialect=3, mutants_per_dialect=3, templates=100, salt=23,
+                                                        fix_mode=False)):
+            if c.get("templater", "raw") != "raw" and i % 2:
+                # also report violations in templated areas (they are dropped by default)
+                c["limits"] = {"ignore_templated_areas": False}
+            yield c
         for i, r in enumerate(gens.templater_corpus()):
             if len(r["sql"]) < 700:
                 yield {"dialect": "ansi", "templater": "jinja", "sql": r["sql"], "context": dict(gens.JCTX), "rules": "all",
                        "rule_options": {}, "fix": False, "origin": "templater-fixture"}
 
     def strategy(self, tier):
-        return st.tuples(lintlib.lint_domain(tier, with_stress=False), st.integers(0, 19), st.sampled_from(FORMATS)).map(
-            lambda t: dict(t[0], fix=False, cli_format=(t[2] if t[1] == 0 else None)))
+        return st.tuples(lintlib.lint_domain(tier, with_stress=False), st.integers(0, 19), st.sampled_from(FORMATS),
+                         st.booleans()).map(
+            lambda t: dict(t[0], fix=False, cli_format=(t[2] if t[1] == 0 else None),
+                           **({"limits": {"ignore_templated_areas": False}} if t[3] and t[0].get("templater", "raw") != "raw" else {})))
 
     def examples(self, tier):
         return 35 if tier == "quick" else 1500
@@ -124,10 +131,10 @@ class C23(Check):
                 if 0 <= ss.start <= len(src) and line_col(src, ss.start) != (v.line_no, v.line_pos):
                     out.fail(f"{code}: reported {(v.line_no, v.line_pos)} but segment starts at offset {ss.start} = "
                              f"{line_col(src, ss.start)}", clause="linecol-vs-segment", rule=code, templated=templater != "raw")
-                # (only for segments whose source range has the length of their text: a literal segment that spans
-                # several loop iterations has a shorter source range by construction)
+                # (not for segments whose source range is shorter than their text: a literal segment that spans several
+                # loop iterations revisits the same source by construction)
                 if (pm.is_literal() and seg.raw and "start_file_pos" in d and "end_file_pos" in d
-                        and ss.stop - ss.start == len(seg.raw)
+                        and ss.stop - ss.start >= len(seg.raw)
                         and res.tree is not None and 0 <= d["start_file_pos"] <= d["end_file_pos"] <= len(src)
                         and pm.templated_file is res.templated_file
                         and res.templated_file.templated_str[pm.templated_slice] == seg.raw):
